@@ -348,8 +348,16 @@ public:
   /// \brief Begin an outbound connection (async); result via onConnect.
   ConnectResult connect(const std::string &host, std::uint16_t port, TlsMode tls) override
   {
+    return connect(host, port, tls, std::string());
+  }
+
+  /// \brief As connect(), with the name the TLS peer must be authenticated as
+  /// when \p host is an address the caller resolved itself.
+  ConnectResult connect(const std::string &host, std::uint16_t port, TlsMode tls,
+                        const std::string &tlsServerName) override
+  {
     SessionId sid = _nextSessionId++;
-    ConnectReq cr{sid, host, port, tls};
+    ConnectReq cr{sid, host, port, tls, tlsServerName};
     // Surface the closed-queue reject (DD-5): if the transport is tearing down,
     // enqueue() returns false and the connect command is dropped — returning
     // ok(sid) here would promise a connection that will never complete or fire
@@ -726,6 +734,7 @@ private:
     std::string host;
     std::uint16_t port{};
     TlsMode tls{TlsMode::None};
+    std::string tlsServerName; // expected certificate name / SNI when host is an address
   };
 
   struct SendReq
@@ -1725,10 +1734,12 @@ private:
       // A connection made to a host name: send the name (SNI) and, when the peer
       // is verified, require the certificate to be issued for it. Chain
       // validation alone accepts any certificate of the trusted CA.
-      if (!isIPv4 && !isIPv6)
+      const bool hostIsName = !isIPv4 && !isIPv6;
+      const std::string &expectedName = cr.tlsServerName.empty() ? cr.host : cr.tlsServerName;
+      if (hostIsName || !cr.tlsServerName.empty())
       {
-        (void)::SSL_set_tlsext_host_name(s->ssl, cr.host.c_str());
-        if (_config.clientTls.verifyPeer && ::SSL_set1_host(s->ssl, cr.host.c_str()) != 1)
+        (void)::SSL_set_tlsext_host_name(s->ssl, expectedName.c_str());
+        if (_config.clientTls.verifyPeer && ::SSL_set1_host(s->ssl, expectedName.c_str()) != 1)
         {
           decltype(_cbs.onClose) closeCb;
           { std::lock_guard<std::mutex> g(_cbMutex); closeCb = _cbs.onClose; }
